@@ -410,6 +410,20 @@ def run_memcheck(ctx, spec):
 
 
 def run(ctx, spec):
+  from paranoid_crypto.lib.randomness_tests import berlekamp_massey as bm
+  from vp import contracts
+  pm = contracts.PurityMonitor(ctx, keep=150, max_repr=4000)
+  for f in ('LinearComplexity', 'LinearComplexityNative', 'LfsrCount',
+            'LfsrLogProbability'):
+    pm.wrap(bm, f)
+  try:
+    _run(ctx, spec)
+    pm.recheck()
+  finally:
+    pm.restore()
+
+
+def _run(ctx, spec):
   s = spec['shard']
   for prefix, fn in (('exh', run_exh), ('lfsrcount', run_lfsrcount),
                      ('cases', run_cases), ('long', run_long),
